@@ -197,9 +197,6 @@ func (l *refLimiter) admit(lo, hi time.Time) {
 // even then is room the limiter really has.
 func (l *refLimiter) slackHi(t time.Time) float64 {
 	best := l.burst + l.rps*t.Sub(l.t0).Seconds() - float64(len(l.admittedHi)+1)
-	if best > l.burst-1 {
-		best = l.burst - 1 // the bucket holds at most burst
-	}
 	for i, ti := range l.admittedHi {
 		cnt := float64(len(l.admittedHi)-i) + 1
 		m := l.burst + l.rps*t.Sub(ti).Seconds() - cnt
